@@ -5,7 +5,7 @@ WT=$(mktemp -d /tmp/wt-conf-XXXXXX); rmdir $WT
 git -C /repo worktree add -q --detach $WT HEAD || exit 9
 cd $WT && make -s -j8 chibicc >/dev/null 2>&1
 rundemo() { # $1 = chibicc binary
-  T=$(mktemp -d /tmp/demo-XXXXXX); cp $D/* $T/ 2>/dev/null; rm -f $T/patch.diff; cd $T
+  T=$(mktemp -d /tmp/demo-XXXXXX); cp -r $D/* $T/ 2>/dev/null; rm -f $T/patch.diff; cd $T
   if [ -f demo.sh ]; then timeout 300 bash demo.sh $1 > out.txt 2>&1; rc=$?; else timeout 120 $1 -I$WT/include -o demo demo.c -lpthread > out.txt 2>&1 && timeout 120 ./demo >> out.txt 2>&1; rc=$?; fi
   tail -3 out.txt | cut -c1-200
   if [ $rc -eq 0 ] && grep -Eq "WRONG|FAIL|MISMATCH|BAD|LOST|exit=[1-9]" out.txt; then rc=1; fi
